@@ -70,6 +70,7 @@ type RunResult struct {
 	Harness    error
 	// Unsupported: the SQL interpreter met a statement outside its grammar; the run decides nothing
 	Unsupported string
+	Yields      []YieldSite // fault enumeration: the yields of the run that admit a fault
 	post        []func() ([]Violation, bool)
 }
 
@@ -429,6 +430,7 @@ func runInBubble(t *testing.T, sc *Scenario, plan *Plan, ex *ExploreCfg, res *Ru
 	w := NewWorld()
 	w.lenientReads = sc.Params["lenient_reads"] == "1"
 	w.realSQL = sc.Knobs.RealSQL
+	w.recordYields = sc.Params["record_yields"] == "1"
 	seed := sc.Seed
 	if ex != nil {
 		seed = ex.Seed
@@ -534,6 +536,7 @@ func runInBubble(t *testing.T, sc *Scenario, plan *Plan, ex *ExploreCfg, res *Ru
 	res.Results = r.results
 	res.Recorded = w.recorded
 	res.Harness = w.harness
+	res.Yields = w.yields
 	w.mu.Lock()
 	res.Unsupported = w.sqlUnsupported
 	w.mu.Unlock()
